@@ -185,7 +185,7 @@ class ExponentiatedGradient(BaseEstimator, MetaEstimatorMixin):
                 if self.nu is None:
                     self.nu = (
                         _ACCURACY_MUL
-                        * (h(X) - self.constraints._y_as_series).abs().std()
+                        * (np.asarray(h(X)) - self.constraints._y_as_series).abs().std()
                         / np.sqrt(self.constraints.total_samples)
                     )
                 eta = self.eta0 / B
@@ -355,7 +355,8 @@ class ExponentiatedGradient(BaseEstimator, MetaEstimatorMixin):
             if self.weights_[t] == 0:
                 pred[t] = np.zeros(len(X))
             else:
-                pred[t] = self._hs[t](X)
+                # paired with the rows of X by position: a pandas result must not be aligned on its index
+                pred[t] = np.asarray(self._hs[t](X))
 
         if isinstance(self.constraints, ClassificationMoment):
             positive_probs = pred[self.weights_.index].dot(self.weights_).to_frame()
